@@ -367,6 +367,17 @@ example : (("Glyph", AVal.const "Glyph", glyphKw) ∈ freeRoots) ∧ interp cfgA
       (freeRoot W cfgA "Glyph" (.builtin "Glyph") glyphKw).bind fun o => classAt W o s) = some (.user 8 "Anchor") := by
   decide +kernel
 
+/-- `free_standing_is_reached` speaks of objects that exist: the user-constructed glyph of the registered class -/
+example : (freeRoot W cfgAll "Glyph" (expected cfgAll .glyph) glyphKw).map (fun o => (o.cd, o.self))
+    = some ("Glyph", .user 1 "Glyph") ∧ (reachIds W cfgAll toGlyph).isSome = true := by decide +kernel
+
+/-- the hypotheses of `foreign_objects_converted_free` are met: `appendAnchor` of a glyph of defcon's own class that
+the user constructed with the registered classes handed in rebuilds a plain `Anchor` with the registered class -/
+example : ((W.entry "Glyph.appendAnchor").bind (resolveEntry W 4)).bind (fun e =>
+      (freeRoot W cfgA "Glyph" (.builtin "Glyph") glyphKw).bind fun o =>
+        (store W o e (.builtin "Anchor")).map fun st => (decide (e.owner = o.cd), decide (e.how ≠ .adopt), st))
+    = some (true, true, .rebuilt (.user 8 "Anchor")) := by decide +kernel
+
 /-- the entry points of the regenerated table -/
 example : W.entries.length = 19 ∧ (W.entries.filter fun e => e.how = .adopt).map (·.id)
     = ["Contour.insertPoint", "Glyph.insertContour", "Glyph.insertComponent"] := by decide +kernel
